@@ -27,8 +27,8 @@ def gen_cases(ck):
     quick = ck.tier == "quick"
     cases = []
 
-    def add(op, tree, tags, **kw):
-        c = {"id": len(cases), "op": op, "tree": tree, "frame": eg.jtext(tree), "tags": tags}
+    def add(op, tree, tags, frame=None, **kw):
+        c = {"id": len(cases), "op": op, "tree": tree, "frame": frame or eg.jtext(tree), "tags": tags}
         c.update(kw)
         cases.append(c)
 
@@ -50,8 +50,12 @@ def gen_cases(ck):
     n_dup_frames = 6 if quick else 20
     for pname in eg.PTYPES:
         for ename in eg.ETYPES:
-            for tree in REGRESSION:
+            for k, tree in enumerate(REGRESSION):
                 add("reply", tree, {"class": "regression"}, p=pname, e=ename)
+                # member names are decoded JSON strings: "\u0065rror" IS the member `error`
+                if tree.ms:
+                    add("reply", tree, {"class": "regression_escaped_names"},
+                        frame=eg.jtext_esc(tree, rng, ("one", "first", "all")[k % 3]), p=pname, e=ename)
             frames = eg.reply_frames(rng, pname, ename, quick)
             rng.shuffle(frames)
             picked = frames[:n_sample]
@@ -79,8 +83,11 @@ def gen_cases(ck):
     for meth, (unit, ename, pname) in eg.PROXY.items():
         frames = eg.reply_frames(rng, pname, ename, quick)
         rng.shuffle(frames)
-        for tree in REGRESSION:
+        for k, tree in enumerate(REGRESSION):
             add("proxy", tree, {"class": "regression"}, meth=meth)
+            if tree.ms:
+                add("proxy", tree, {"class": "regression_escaped_names"},
+                    frame=eg.jtext_esc(tree, rng, ("one", "first", "all")[k % 3]), meth=meth)
         for tags, ms in frames[: (120 if quick else 1200)]:
             ms = list(ms)
             rng.shuffle(ms)
